@@ -368,3 +368,5 @@ SUBS = [
     Sub("container", run_container, strategy=container_strategy, budget=(150, 4000), shards=(2, 16),
         rule="1..4 generated blocks of distinct types added to a new file; entry sizes vs. independent parse of the file"),
 ]
+from ..core import optimised_child_sub  # noqa: E402
+SUBS.append(optimised_child_sub("C02", ["boundary-counts", "items", "blocks"]))
